@@ -303,6 +303,12 @@ def realise_columns(cex, m, recs, concrete):
 
 
 def replay(cex):
+    if cex.get("kind") == "w":
+        from engine import wrun
+        return wrun.replay_generic(cex)
+    if cex.get("kind") == "ngram":
+        from checks import c12
+        return c12.replay(cex)
     return hhh.replay_hh_history(cex, judge=("overcount",) if cex.get("property", "overcount") == "overcount" else ("dominate",))
 
 
@@ -350,7 +356,17 @@ def ob_witness_branches():
 
 def run(prop, pid, explanation, extra_outside):
     obs, shapes, bmc_cfg, nb, t0, tier = main(prop, pid)
+    if prop == "overcount":
+        from engine import wrun
+        wobs, wmeta = wrun.obligations("c03", tier)
+        obs += wobs
     obs.append(common.Ob("witness: match / replacement / decrement branches of _add all reachable in the harness", ob_witness_branches, (), kind="witness", hard_s=300))
+    if prop == "overcount":
+        # add_ngram must add exactly the windows of the key (an extra window is a key that was never added)
+        from checks import c12
+        c12.mods()
+        for L, n in ((0, None), (2, None), (4, None), (3, 1), (4, 2), (5, 2), (5, 4), (6, 4)):
+            obs.append(common.Ob(f"add_ngram kernel adds exactly the windows: heavy hitters _add_ngram key length {L}, ngram {'>= len (symbolic)' if n is None else n} (max_key_len 3)", c12.ob_ngram, ("hh", L, n, 600000), hard_s=720, bounds={"key_len": L}))
     results = common.run_obligations(obs, progress=os.environ.get("VERIF_VERBOSE") == "1")
     ncti = 0
     for o, r in zip(obs, results):
@@ -366,7 +382,7 @@ def run(prop, pid, explanation, extra_outside):
                 "bmc_multiplicities": "symbolic in {0..4} u {97} u {2^32-4..2^32-1}", "ghost_true_counts": "< 2^44"},
         stubs=["fasthash64 -> uninterpreted; `% width` yields a fresh column < width per (key, row); keys with equal identity are constrained to equal columns"],
         assumptions=["Numba lowering preserves typed-IR semantics", "prange == range for row-disjoint writes in _merge", "HeavyHitters.add caps value at 2^32-1 (C12)",
-                     "query()/generate_candidate_set report (bytes(lhh[r,c,:len]), _max_count) pairs of non-empty cells (C13)"],
+                     "query()/generate_candidate_set report exactly (stored key, hh[key]) pairs of non-empty cells, from the sketch's own current cache: the CrossHair conditions of checks/w_c13.py are attached to this check"],
         outside=["max_key_len > 4, keys > 255 bytes", "an induction failure without a bounded-history counterexample is reported as inconclusive (exit 2)"] + extra_outside,
         explanation=explanation,
         technique="symbolic execution of Numba typed IR + z3 (QF_UFBV): inductive invariant with an uninterpreted ghost count function, plus bounded histories with symbolic key bytes")
